@@ -441,6 +441,7 @@ type FuncContract struct {
 	NoFrame   bool // the modifies clause is what callers see; the body's frame is assumed, not checked (listed)
 	ModifiesAll bool
 	CallAsserts []*CallAssert
+	UpdateAsserts []*CallAssert // assert-update <field> : expr   (at every map update through field <field>)
 }
 
 // CallAssert: an assertion that must hold at every call of Callee inside the function under contract.
@@ -505,7 +506,7 @@ type ContractFile struct {
 
 var clauseKeywords = map[string]bool{"requires": true, "ensures": true, "modifies": true, "loop": true, "prop": true, "nopanic": true,
 	"trusted": true, "defines": true, "trusted-ensures": true, "covers": true, "func": true, "extern": true, "pure": true, "rec": true, "uninterp": true, "axiom": true, "lemma": true,
-	"ghost": true, "effectfree": true, "type-invariant": true, "relayed": true, "exempt": true, "import": true, "inline": true, "noframe": true, "assert": true, "assert-call": true}
+	"ghost": true, "effectfree": true, "type-invariant": true, "relayed": true, "exempt": true, "import": true, "inline": true, "noframe": true, "assert": true, "assert-call": true, "assert-update": true}
 
 // ParseContractFile reads //@ lines from a file.
 func ParseContractFile(path, pkg string) (*ContractFile, error) {
@@ -641,6 +642,20 @@ func ParseContractText(text, path, pkg string) (*ContractFile, error) {
 				callee = strings.TrimSpace(callee[:h])
 			}
 			cur.CallAsserts = append(cur.CallAsserts, &CallAssert{Callee: callee, Ordinal: ord, C: c})
+		case "assert-update":
+			// assert-update <field> : expr  -- $map, $key, $value are bound at each map update whose map was loaded from <field>
+			if cur == nil {
+				return nil, fail(l.n, "assert-update outside func")
+			}
+			k := strings.Index(rest, " : ")
+			if k < 0 {
+				return nil, fail(l.n, "assert-update <field> : <expr>")
+			}
+			c, err := mkClause("assert-update", strings.TrimSpace(rest[k+3:]), l.n)
+			if err != nil {
+				return nil, err
+			}
+			cur.UpdateAsserts = append(cur.UpdateAsserts, &CallAssert{Callee: strings.TrimSpace(rest[:k]), Ordinal: -1, C: c})
 		case "modifies":
 			if cur == nil {
 				return nil, fail(l.n, "modifies outside func")
